@@ -60,21 +60,34 @@ Fixpoint fullmatch (r : rx) (s : str) : bool :=
 Fixpoint prefixmatch (r : rx) (s : str) : bool :=
   nullable r || match s with [] => false | c :: s' => prefixmatch (deriv c r) s' end.
 
-(* a compiled pattern as re.match sees it: `^` is implied; p_end = the pattern ends in `$`,
-   which (without re.MULTILINE) holds at the end of the string or just before a final newline *)
-Record pat := { p_body : rx; p_end : bool }.
+(* some prefix of s is in the language and is followed by the end of s or by a newline
+   (`$` under re.MULTILINE) *)
+Fixpoint prefixmatch_nl (r : rx) (s : str) : bool :=
+  match s with
+  | [] => nullable r
+  | c :: s' => (nullable r && N.eqb c 10) || prefixmatch_nl (deriv c r) s'
+  end.
+
+(* a compiled pattern as re.match sees it: `^` is implied; p_end = the pattern ends in `$`, which
+   without re.MULTILINE holds at the end of the string or just before a final newline and with
+   re.MULTILINE (p_multi) at the end of the string or before any newline. IGNORECASE, DOTALL and VERBOSE
+   are resolved by the translator (case-closed classes, `.` = any character, layout dropped). *)
+Record pat := { p_body : rx; p_end : bool; p_multi : bool }.
 
 Definition chop_final_nl (s : str) : option str :=
   match rev s with 10%N :: r => Some (rev r) | _ => None end.
 
 Definition re_match (p : pat) (s : str) : bool :=
   if p_end p then
-    fullmatch (p_body p) s || match chop_final_nl s with Some s' => fullmatch (p_body p) s' | None => false end
+    if p_multi p then prefixmatch_nl (p_body p) s
+    else fullmatch (p_body p) s || match chop_final_nl s with Some s' => fullmatch (p_body p) s' | None => false end
   else prefixmatch (p_body p) s.
 
 (* what `re.match(p, s)` succeeding means *)
 Definition pat_accepts (p : pat) (s : str) : Prop :=
-  if p_end p then lang (p_body p) s \/ exists s', s = s' ++ [10%N] /\ lang (p_body p) s'
+  if p_end p then
+    if p_multi p then exists pre post, s = pre ++ post /\ lang (p_body p) pre /\ (post = [] \/ exists t, post = 10%N :: t)
+    else lang (p_body p) s \/ exists s', s = s' ++ [10%N] /\ lang (p_body p) s'
   else exists pre post, s = pre ++ post /\ lang (p_body p) pre.
 
 (* ================================================================ correctness *)
@@ -227,9 +240,27 @@ Proof.
   - intros ->. rewrite rev_app_distr. simpl. rewrite rev_involutive. reflexivity.
 Qed.
 
+Theorem prefixmatch_nl_iff s : forall r,
+  prefixmatch_nl r s = true <->
+  exists pre post, s = pre ++ post /\ lang r pre /\ (post = [] \/ exists t, post = 10%N :: t).
+Proof.
+  induction s as [|c s IH]; intros r; simpl.
+  - rewrite nullable_iff. split.
+    + intros H. exists [], []. auto.
+    + intros [pre [post [E [H _]]]]. symmetry in E. apply app_eq_nil in E. destruct E; subst. auto.
+  - rewrite orb_true_iff, andb_true_iff, nullable_iff, IH, N.eqb_eq. split.
+    + intros [[H E]|[pre [post [E [H T]]]]].
+      * subst. exists [], (10%N :: s). repeat split; auto. right. eauto.
+      * subst. exists (c :: pre), post. repeat split; auto. apply deriv_iff; auto.
+    + intros [pre [post [E [H T]]]]. destruct pre as [|x pre].
+      * left. split; auto. simpl in E. destruct T as [->|[t ->]]; [discriminate|]. congruence.
+      * simpl in E. inversion E; subst. right. exists pre, post. repeat split; auto. apply deriv_iff; auto.
+Qed.
+
 Theorem re_match_iff p s : re_match p s = true <-> pat_accepts p s.
 Proof.
-  unfold re_match, pat_accepts. destruct (p_end p).
+  unfold re_match, pat_accepts. destruct (p_end p); [destruct (p_multi p)|].
+  - apply prefixmatch_nl_iff.
   - rewrite orb_true_iff, fullmatch_iff. split.
     + intros [H|H]; auto. destruct (chop_final_nl s) as [s'|] eqn:E; [|discriminate].
       right. exists s'. split; [apply chop_final_nl_iff; auto | apply fullmatch_iff; auto].
